@@ -92,7 +92,7 @@ def gen(rng, ctx):
         k = rng.choice(["add", "add", "add", "add_uid", "connect", "connect", "connect", "disconnect", "remove", "set_output", "add_blackbox", "add_subcircuit", "fill_blackbox", "targeted"])
         if k == "targeted":
             # calls aimed at one wiring rule, built from the (approximate) types of the live nodes
-            t = rng.choice(["bbout_to_bufs", "second_driver", "into_source", "from_bbin", "bbout_to_gate", "fresh_bufs_then_bbout", "bb_conn_list", "add_bbout_fanout"])
+            t = rng.choice(["bbout_to_bufs", "second_driver", "into_source", "from_bbin", "bbout_to_gate", "fresh_bufs_then_bbout", "bb_conn_list", "add_bbout_fanout", "two_pins_one_buf"])
             bo, bi = of_type("bb_output"), of_type("bb_input")
             bufs = [n for n in live if ltype.get(n) == "buf"]
             if t == "fresh_bufs_then_bbout":
@@ -111,6 +111,15 @@ def gen(rng, ctx):
                 insts.append(name)
                 live += [f"{name}.p", f"{name}.o"]
                 ltype[f"{name}.p"], ltype[f"{name}.o"] = "bb_input", "bb_output"
+            elif t == "two_pins_one_buf":
+                # both output pins of one instance mapped onto the same fresh buffer: each legal alone
+                b0 = f"fb{len(ops)}"
+                ops.append({"op": "add", "n": b0, "type": "buf", "uid": False, "output": True})
+                live.append(b0)
+                ltype[b0] = "buf"
+                name = f"T{len(ops)}"
+                ops.append({"op": "add_blackbox", "bb": BBDEFS[2], "name": name, "connections": {"y": b0, "z": b0}})
+                insts.append(name)
             elif t == "add_bbout_fanout":
                 b0, b1 = f"fb{len(ops)}", f"fc{len(ops)}"
                 ops.append({"op": "add", "n": b0, "type": "buf", "uid": False, "output": True})
